@@ -38,8 +38,10 @@ type Compiler struct {
 	labelNameMangle map[string]uint64
 	varScopes       []map[string]string
 	currScope       *map[string]string
-	currModule      string
-	lambdaCount     uint
+	// The root scope (globals and singletons) of every module: a name in one module never resolves to another module's global.
+	globalScopes map[string]map[string]string
+	currModule   string
+	lambdaCount  uint
 	// Program source: required for invocations of the evaluator.
 	analyzedSource   map[string]ast.AnalyzedProgram
 	entryPointModule string
@@ -60,6 +62,7 @@ func NewCompiler(program map[string]ast.AnalyzedProgram, entryPointModule string
 		labelNameMangle: make(map[string]uint64),
 		varScopes:       scopes,
 		currScope:       currScope,
+		globalScopes:    make(map[string]map[string]string),
 		currModule:      "",
 		currFn:          "",
 		// Program source.
@@ -124,6 +127,11 @@ func (self *Compiler) compileProgram(
 	for moduleName, module := range program {
 		self.currModule = moduleName
 		self.modules[self.currModule] = make(map[string]*Function)
+
+		// Every module has its own root scope.
+		self.varScopes[0] = make(map[string]string)
+		self.currScope = &self.varScopes[0]
+		self.globalScopes[moduleName] = self.varScopes[0]
 
 		initFn := self.mangleFn(InitFunctionIdent)
 		self.addFn(InitFunctionIdent, initFn)
@@ -204,6 +212,24 @@ func (self *Compiler) compileProgram(
 
 	for moduleName, module := range program {
 		self.currModule = moduleName
+
+		// Names resolve in the root scope of this module; a global imported from another module
+		// denotes that module's global.
+		self.varScopes[0] = self.globalScopes[moduleName]
+		self.currScope = &self.varScopes[0]
+		for _, item := range module.Imports {
+			if !item.TargetIsHMS {
+				continue
+			}
+			for _, importItem := range item.ToImport {
+				if importItem.Kind != pAst.IMPORT_KIND_NORMAL {
+					continue
+				}
+				if mangled, found := self.globalScopes[item.FromModule.Ident()][importItem.Ident.Ident()]; found {
+					self.varScopes[0][importItem.Ident.Ident()] = mangled
+				}
+			}
+		}
 
 		// Compile all functions
 		var mainFnSpan errors.Span
